@@ -155,8 +155,11 @@ def attribute_flag(a, ev):
     has = a.get("attribute") == ("lit", "true") or any("attribute = true" in og.nf_str(h) for h in a.get("_holes", []))
     cond = None
     for c in ev.ctx:
-        if c[0] == "alt" and og.nf_str(c[1]).endswith("is_attribute"):
-            cond = c[2]
+        if c[0] != "alt":
+            continue
+        k_, v_ = og.decision(c[1], c[2])       # (`!self.is_attribute` taken is `self.is_attribute` not taken)
+        if k_[0] == "cond" and og.nf_str(k_[1]).endswith("is_attribute"):
+            cond = v_
     return has, cond
 
 
@@ -240,6 +243,15 @@ def run(ck, F):
             ck.violation("R1", "prefix-without-namespace", ev.site, "a prefix is emitted for a field without namespace")
         has, cond = attribute_flag(a, ev)
         legacy = any("attribute = true" in og.nf_str(h) and "self.is_attribute" in og.nf_str(h) for h in a.get("_holes", []))
+        # an attribute is written with its declared, unqualified name: no prefix on a template that can be an attribute's
+        # (attributeFormDefault / form="qualified" are not read by the generator, so every attribute is unqualified)
+        if "prefix" in a and (has or legacy) and cond is not False:
+            ck.violation("R1", "attribute-qualified", ev.site,
+                         "the member template that carries `attribute = true` also carries `prefix = ..`: yaserde then writes the attribute as "
+                         "`p:name=\"..\"`, a qualified attribute the schema does not declare (attributes are unqualified unless form / "
+                         "attributeFormDefault say otherwise, which the generator does not read)")
+        elif has or legacy:
+            ck.ok("R1", f"attribute-unqualified:{tag}", ev.site, "the attribute template carries no prefix")
         tagf = tag + ("" if cond is None else ":attr" if cond else ":elem")
         if legacy or (cond is not None and has == cond):
             ck.ok("R1", f"attribute-flag:{tagf}", ev.site, "`attribute = true` is selected by self.is_attribute")
